@@ -13,7 +13,7 @@ LEVEL_TEXT = ("Lean theorem C13_full_holds: for every capacity and every history
               "being cancelled at any point, the number of files being read equals the number of limiter tokens and never exceeds the limit "
               "(invariant by induction over label sequences), plus progress and cancel-neutrality; tied to the code by scripted histories "
               "driven through the real readCommand.read on FIFOs, the harness owning the limiter channel and the contexts: the limiter "
-              "length and the number of returned reads after every step must be what the model's run of the same script gives")
+              "length and the number of returned reads after every step must be what the model's run of the same script gives; further histories: c13.tail (follows whose file is truncated and re-read, cancels around the retry window, probe lines), D steps (a read whose session is gone before it starts), c13.session (whole multi-command sessions through ServerHandler.Write / Shutdown on one shared limiter), c13.jobs (a real dserver whose own continuous jobs follow files, /proc/<pid>/fd)")
 TRUSTED = ["Lean 4 kernel", "axioms: propext, Quot.sound, Classical.choice (at most)", "overlay harness + dtmodel driver + this diff",
            "modelled not verified: Go channel and select semantics, goroutine scheduling (the model's labels are the scheduler's choices; "
            "the scripts exercise one interleaving per history), that a read holds its slot exactly while the reader runs"]
